@@ -76,14 +76,17 @@ impl<S: ShortGroupSignatureScheme> Presentation<S> {
                     builders.push(builder.into());
                 }
                 Statements::Revocation(a) => {
-                    let (_, proof_message) = messages[&a.reference_id][a.claim];
+                    let (_, proof_message) = *messages
+                        .get(&a.reference_id)
+                        .and_then(|msgs| msgs.get(a.claim))
+                        .ok_or_else(|| Error::InvalidPresentationData(format!("statement '{}' references claim '{}' of '{}' which does not exist", a.id, a.claim, a.reference_id)))?;
                     if matches!(proof_message, ProofMessage::Revealed(_)) {
                         return Err(Error::InvalidClaimData(
                             "revealed claim cannot be used for set membership proofs",
                         ));
                     }
-                    let credential = if let PresentationCredential::Signature(credential) =
-                        &credentials[&a.reference_id]
+                    let credential = if let Some(PresentationCredential::Signature(credential)) =
+                        credentials.get(&a.reference_id)
                     {
                         credential
                     } else {
@@ -100,14 +103,17 @@ impl<S: ShortGroupSignatureScheme> Presentation<S> {
                     builders.push(builder.into());
                 }
                 Statements::Membership(m) => {
-                    let (_, proof_message) = messages[&m.reference_id][m.claim];
+                    let (_, proof_message) = *messages
+                        .get(&m.reference_id)
+                        .and_then(|msgs| msgs.get(m.claim))
+                        .ok_or_else(|| Error::InvalidPresentationData(format!("statement '{}' references claim '{}' of '{}' which does not exist", m.id, m.claim, m.reference_id)))?;
                     if matches!(proof_message, ProofMessage::Revealed(_)) {
                         return Err(Error::InvalidClaimData(
                             "revealed claim cannot be used for set membership proofs",
                         ));
                     }
-                    let credential = if let PresentationCredential::Membership(credential) =
-                        &credentials[&m.id]
+                    let credential = if let Some(PresentationCredential::Membership(credential)) =
+                        credentials.get(&m.id)
                     {
                         credential
                     } else {
@@ -124,7 +130,10 @@ impl<S: ShortGroupSignatureScheme> Presentation<S> {
                     builders.push(builder.into());
                 }
                 Statements::Commitment(c) => {
-                    let (_, proof_message) = messages[&c.reference_id][c.claim];
+                    let (_, proof_message) = *messages
+                        .get(&c.reference_id)
+                        .and_then(|msgs| msgs.get(c.claim))
+                        .ok_or_else(|| Error::InvalidPresentationData(format!("statement '{}' references claim '{}' of '{}' which does not exist", c.id, c.claim, c.reference_id)))?;
                     if matches!(proof_message, ProofMessage::Revealed(_)) {
                         return Err(Error::InvalidClaimData(
                             "revealed claim cannot be used for commitment",
@@ -138,7 +147,10 @@ impl<S: ShortGroupSignatureScheme> Presentation<S> {
                     builders.push(builder.into());
                 }
                 Statements::VerifiableEncryption(v) => {
-                    let (_, proof_message) = messages[&v.reference_id][v.claim];
+                    let (_, proof_message) = *messages
+                        .get(&v.reference_id)
+                        .and_then(|msgs| msgs.get(v.claim))
+                        .ok_or_else(|| Error::InvalidPresentationData(format!("statement '{}' references claim '{}' of '{}' which does not exist", v.id, v.claim, v.reference_id)))?;
                     if matches!(proof_message, ProofMessage::Revealed(_)) {
                         return Err(Error::InvalidClaimData(
                             "revealed claim cannot be used for verifiable encryption",
@@ -157,7 +169,10 @@ impl<S: ShortGroupSignatureScheme> Presentation<S> {
                     builders.push(builder.into());
                 }
                 Statements::VerifiableEncryptionDecryption(v) => {
-                    let (claim_data, proof_message) = &messages[&v.reference_id][v.claim];
+                    let (claim_data, proof_message) = messages
+                        .get(&v.reference_id)
+                        .and_then(|msgs| msgs.get(v.claim))
+                        .ok_or_else(|| Error::InvalidPresentationData(format!("statement '{}' references claim '{}' of '{}' which does not exist", v.id, v.claim, v.reference_id)))?;
                     if matches!(proof_message, ProofMessage::Revealed(_)) {
                         return Err(Error::InvalidClaimData(
                             "revealed claim cannot be used for verifiable encryption",
@@ -201,7 +216,7 @@ impl<S: ShortGroupSignatureScheme> Presentation<S> {
                 } else {
                     continue;
                 };
-                let builder_index = id_to_builder[&r.reference_id];
+                let builder_index = *id_to_builder.get(&r.reference_id).ok_or(Error::InvalidPresentationData(format!("range proof statement with id '{}' references a commitment '{}' that doesn't exist", id, r.reference_id)))?;
                 if let PresentationBuilders::Commitment(commitment) = &builders[builder_index] {
                     if let ClaimData::Number(n) = sig
                         .claims
